@@ -6,7 +6,6 @@
 From V.model Require Import Base RelLex RelParse RelAcc RelGrammar RelGrammarAll.
 From V.model Require Import RelEdit RelEditSpec RelEditTree RelLiveAll.
 From V.proofs Require Import BaseP RelEditP RelEditStP RelEditTreeP RelLiveAllP.
-Set Default Timeout 60.
 
 Definition entry_of (x : relem) : list lentry := match x with RE e => [e] | _ => [] end.
 Definition lentries (l : lroot) : list lentry := flat_map entry_of l.
